@@ -314,7 +314,7 @@ def oracle_full(line, out):
             elif r == "C":
                 av.cur.pop(opslot, None)
                 av.ndial.pop(opslot, None)
-            elif r[0] == "A" and r != "A-":
+            elif r[0] == "A" and r not in ("A-", "AR"):
                 av.ndial[opslot] = 0
             elif r[0] == "E" and r[1:].isdigit():
                 if int(r[1:]) & 14:
@@ -366,7 +366,19 @@ def oracle_full(line, out):
         # --- host choice on arrival
         if kind == "a" and res and res[0][0] == "A":
             avail = [h for h in range(nh) if prev_hosts[h][2] > 0]
-            if res[0] == "A-":
+            wants_connect = script_of(fld, "u")[:1] == "c"
+            if res[0] == "AR":
+                # refused by the upgrade policy: only an extended CONNECT, only with a host to refuse it for,
+                # and the refusal is a 405 that takes nothing (loads are checked above like after any event)
+                if not wants_connect:
+                    return "request refused by the upgrade policy without asking for an upgrade%s" % where
+                if not avail:
+                    return "upgrade refused (405) although no host is available (503 expected)%s" % where
+            elif wants_connect and res[0] != "A-":
+                return "HTTP/2 extended CONNECT handed to a backend although no host enables upgrade%s" % where
+            if res[0] == "AR":
+                pass
+            elif res[0] == "A-":
                 if avail:
                     return "all handlers down (HTTP 503) although hosts %s report active procs%s" % (avail, where)
             else:
@@ -410,6 +422,8 @@ def oracle_full(line, out):
                     # connection is aborted, the status line is history
                     if code != 200 and "t" not in body:
                         return "complete response finished with status %d%s" % (code, where)
+                elif code == 405 and "AR" in res:
+                    pass
                 elif code < 500 and code != 400:
                     return "request finished without backend response but status %d%s" % (code, where)
             elif r.endswith("=err"):
@@ -449,7 +463,7 @@ def classify(line, out):
             if r[0] == "D":
                 nd += 1
             elif r[0] == "A":
-                tags.add("A-" if r == "A-" else "A")
+                tags.add(r if r in ("A-", "AR") else "A")
             elif "=fin" in r:
                 tags.add("fin" + r.split("=fin")[1])
             elif r.endswith("=wait"):
@@ -527,7 +541,11 @@ def rnd_op(rng, nslots, faulty=True, busy=None):
         elif 0.82 <= x < 0.90:
             busy.discard(s)
     if x < 0.30:
-        return with_script("a%d.%d" % (s, rng.randrange(12)), rnd_script(rng, faulty))
+        sc = rnd_script(rng, faulty)
+        y = rng.random()
+        if y < 0.12:
+            sc = (sc + "," if sc else "") + ("u=c" if y < 0.08 else "u=h")
+        return with_script("a%d.%d" % (s, rng.randrange(12)), sc)
     if x < 0.62:
         m = rng.choice([1, 1, 2, 2, 3, 4, 8, 9, 12, 16, 5, 6])
         return with_script("e%d.%d" % (s, m), rnd_script(rng, faulty))
@@ -560,7 +578,7 @@ def gen_scenarios(rng, n, anon=False):
         nh = hosts.count("/") + 1
         ops = []
         for _ in range(rng.randint(2, 7)):
-            sc = rng.randrange(12)
+            sc = rng.randrange(13)
             s = rng.randrange(nslots)
             key = rng.randrange(12)
             if sc == 0:    # refused by some backends, then accepted
@@ -592,6 +610,12 @@ def gen_scenarios(rng, n, anon=False):
                 n = rng.randint(3, 12)
                 ops.append("a%d.%d.c=%s,w=%s,r=%s" % (s, key, "k" * n, rng.choice("en") * n, "x" * n))
                 ops.append("e%d.1.r=%s,c=%s,w=%s" % (s, "x" * n, "k" * n, "n" * n))
+            elif sc == 11: # requests the upgrade policy refuses after a host was chosen, among others
+                for _ in range(rng.randint(1, 4)):
+                    ops.append("a%d.%d.u=c" % (rng.randrange(nslots), rng.randrange(12)))
+                    if rng.random() < 0.5:
+                        s2 = rng.randrange(nslots)
+                        ops += ["a%d.%d.c=%s,u=h" % (s2, rng.randrange(12), rng.choice("kpr")), "c%d" % s2]
             elif sc == 10: # response begun, then the backend fails or closes short of what it announced
                 ops.append("a%d.%d.c=k" % (s, key))
                 ops.append("e%d.1.r=%s" % (s, rng.choice(["d", "D", "l", "dl", "Dl", "lD", "dg", "lg"])))
@@ -604,7 +628,7 @@ def gen_scenarios(rng, n, anon=False):
     return out
 
 
-ALPHA = ["a0.1.c=k", "a0.2.c=p", "a1.3.c=r", "a1.4.c=rrrrrrr", "a0.5.c=k,w=n", "e0.1.r=x", "e0.1.r=df",
+ALPHA = ["a0.6.u=c", "a1.7.c=k,u=h", "a0.1.c=k", "a0.2.c=p", "a1.3.c=r", "a1.4.c=rrrrrrr", "a0.5.c=k,w=n", "e0.1.r=x", "e0.1.r=df",
          "e0.1.r=dx", "e0.1.r=Dx", "e0.1.r=lf",
          "e1.2.s=r", "e0.2", "e0.4", "e1.16", "t1", "t3", "c0", "s1.c=k"]
 SMALL_CFG = ["2.1.2.2.2.r/1.2.1.0.0.r", "1.1.1.1.1.u/1.1.0.0.0.l/1.0.2.0.3.r"]
@@ -685,6 +709,8 @@ HAND = [
     # response begun, then cut off: before / after the head went out; short of the announced length
     "gw 0 0 4 1.1.0.0.0.r a0.1.c=k e0.1.r=d e0.1.r=x a1.1.c=k e1.1.r=D e1.1.r=x a2.1.c=k e2.1.r=l e2.1.r=f a3.1.c=k e3.1.r=Dl e3.1.r=f",
     "gw 0 0 2 1.1.0.2.0.r a0.1.c=k e0.1.r=d t3 a1.1.c=k e1.1.r=D t3",
+    # refused by gw_upgrade_policy() after host choice (405), Upgrade header stripped, no host at all
+    "gw 1 0 3 1.1.0.0.0.r/1.1.0.0.0.r a0.1.u=c a0.2.u=c a1.3.c=k,u=h a0.4.u=c c1 a2.5.c=rr,u=h a0.6.u=c",
 ]
 # hosts written without a label, "((...),(...))": every host's statistics key is the same
 HAND_ANON = [
